@@ -599,7 +599,8 @@ def payload(cls, mode, tag, big_n=BIG_N):
     elif cls == 'allbytes':
         v = ''.join(map(chr, range(256)))
     elif cls == 'sep':
-        v = 'l1-%d' % tag + os.linesep + 'l2\r\n\n;'
+        # every other one ends in the line separator itself (sendline still adds its own: "adding one line separator")
+        v = 'l1-%d' % tag + os.linesep + 'l2\r\n\n' + (';' if tag % 2 == 0 else os.linesep)
     elif cls == 'big':
         unit = '0123456789abcdefé€'
         v = 'big-%d:' % tag + unit * (big_n // len(unit)) + ';'
